@@ -655,3 +655,105 @@ Proof.
   - apply (nbhd_in_range_iff R C r HR HC) in E. lia.
   - destruct (T <=? 1) eqn:E1; [lia|]. reflexivity.
 Qed.
+
+(* ------------------------------------------------------------------ evolve-level call log and closed form *)
+(* the grid a pure rule produces from g at step t, cell by cell *)
+Definition pure_update (f : nbhd2 -> nat * nat -> nat -> Z) (store : Z -> Z) (R C r : nat) (ty : nbhd_type)
+           (g : grid) (t : nat) : grid :=
+  map (fun row => map (fun col =>
+         store (f {| nb_vals := torus_block g row col r; nb_mask := mask_of ty r |} (row, col) t))
+       (seq 0 C)) (seq 0 R).
+
+Lemma flat_map_ext_in {A B} (f g : A -> list B) l : (forall a, In a l -> f a = g a) -> flat_map f l = flat_map g l.
+Proof. intros H. rewrite !flat_map_concat_map. f_equal. apply map_ext_in. exact H. Qed.
+
+Lemma iter_steps_logged {St} (rule : rule2 St) store R C r ty :
+  1 <= R -> 1 <= C -> r <= Nat.min R C ->
+  forall n s lg cur t0, wf_grid R C cur ->
+  exists s' grids,
+    iter_steps (step_plain2d rule store r ty) n s cur t0 = (s', grids) /\
+    length grids = n /\ Forall (wf_grid R C) grids /\
+    iter_steps (step_plain2d (logged2 rule) store r ty) n (s, lg) cur t0 =
+      ((s', lg ++ flat_map (fun t => map (call_of (nth (t - t0) (cur :: grids) []) r ty t) (cells R C)) (seq t0 n)),
+       grids).
+Proof.
+  intros HR HC Hr. induction n as [|n IH]; intros s lg cur t0 Hwf.
+  - exists s, []. cbn [iter_steps seq flat_map]. rewrite app_nil_r. repeat (split; [reflexivity || constructor|]). reflexivity.
+  - cbn [iter_steps].
+    rewrite (step_plain2d_log St rule store cur R C r ty t0 s lg Hwf HR HC Hr).
+    pose proof (step_plain2d_wf St rule store cur R C r ty t0 s Hwf HR HC Hr) as Hw1.
+    destruct (step_plain2d rule store r ty s cur t0) as [s1 g1]. cbn [snd] in Hw1.
+    destruct (IH s1 (lg ++ map (call_of cur r ty t0) (cells R C)) g1 (S t0) Hw1) as [s' [grids [E1 [E2 [E3 E4]]]]].
+    exists s', (g1 :: grids). rewrite E1, E4. split; [reflexivity|]. split; [cbn [length]; rewrite E2; reflexivity|].
+    split; [constructor; assumption|].
+    f_equal. f_equal. rewrite <- app_assoc. f_equal.
+    cbn [seq flat_map]. rewrite Nat.sub_diag. cbn [nth]. f_equal.
+    apply flat_map_ext_in. intros t Ht. apply in_seq in Ht.
+    replace (t - t0) with (S (t - S t0)) by lia. reflexivity.
+Qed.
+
+(* shape and exact call log of evolve2d: T-1 new R x C grids; the rule is consulted for t = 1 .. T-1 ascending,
+   within a step over the row-major cells, each once, on the torus block (with the mask of the type) of the grid
+   of step t-1 (grid 0 = the last grid of the given history) *)
+Theorem evolve2d_plain_logged : forall (St : Type) (rule : rule2 St) (store : Z -> Z) R C r ty s0 lg (hist : list grid) T,
+  1 <= R -> 1 <= C -> r <= Nat.min R C -> wf_grid R C (last hist []) -> 1 <= T ->
+  exists s' grids,
+    evolve2d_plain rule store r ty s0 hist T = Ok (s', hist ++ grids) /\
+    length grids = T - 1 /\ Forall (wf_grid R C) grids /\
+    evolve2d_plain (logged2 rule) store r ty (s0, lg) hist T =
+      Ok ((s', lg ++ flat_map (fun t => map (call_of (nth (t - 1) (last hist [] :: grids) []) r ty t) (cells R C))
+                              (seq 1 (T - 1))), hist ++ grids).
+Proof.
+  intros St rule store R C r ty s0 lg hist T HR HC Hr Hwf HT.
+  destruct T as [|k]; [lia|]. replace (S k - 1) with k by lia.
+  destruct (iter_steps_logged rule store R C r ty HR HC Hr k s0 lg (last hist []) 1 Hwf)
+    as [s' [grids [E1 [E2 [E3 E4]]]]].
+  exists s', grids. unfold evolve2d_plain, evolve_fixed. unfold grid in *. rewrite E1, E4.
+  split; [reflexivity|]. split; [exact E2|]. split; [exact E3|]. reflexivity.
+Qed.
+
+Lemma iter_steps_pure (f : nbhd2 -> nat * nat -> nat -> Z) store R C r ty :
+  1 <= R -> 1 <= C -> r <= Nat.min R C ->
+  forall n (u : unit) cur t0, wf_grid R C cur ->
+  exists grids,
+    iter_steps (step_plain2d (fun u n c t => (u, f n c t)) store r ty) n u cur t0 = (tt, grids) /\
+    length grids = n /\ Forall (wf_grid R C) grids /\
+    forall t, t0 <= t < t0 + n ->
+      nth (t - t0) grids [] = pure_update f store R C r ty (nth (t - t0) (cur :: grids) []) t.
+Proof.
+  intros HR HC Hr. induction n as [|n IH]; intros u cur t0 Hwf.
+  - exists []. destruct u. cbn [iter_steps]. split; [reflexivity|]. split; [reflexivity|]. split; [constructor|].
+    intros t Ht. lia.
+  - cbn [iter_steps].
+    pose proof (step_plain2d_pure_ct f store cur R C r ty t0 u Hwf HR HC Hr) as Hg.
+    pose proof (step_plain2d_wf unit (fun u n c t => (u, f n c t)) store cur R C r ty t0 u Hwf HR HC Hr) as Hw1.
+    destruct (step_plain2d (fun u n c t => (u, f n c t)) store r ty u cur t0) as [u1 g1]. cbn [snd] in Hg, Hw1.
+    destruct (IH u1 g1 (S t0) Hw1) as [grids [E1 [E2 [E3 E4]]]].
+    exists (g1 :: grids). rewrite E1. split; [reflexivity|]. split; [cbn [length]; rewrite E2; reflexivity|].
+    split; [constructor; assumption|].
+    intros t Ht. destruct (Nat.eq_dec t t0) as [Heq|Hne].
+    + subst t. rewrite Nat.sub_diag. cbn [nth]. exact Hg.
+    + replace (t - t0) with (S (t - S t0)) by lia. cbn [nth]. apply E4. lia.
+Qed.
+
+(* stateless rules that may read n, (row, col), t: every appended grid is the synchronous torus update of the
+   grid before it *)
+Theorem evolve2d_plain_pure_ct : forall (f : nbhd2 -> nat * nat -> nat -> Z) (store : Z -> Z) R C r ty (hist : list grid) T,
+  1 <= R -> 1 <= C -> r <= Nat.min R C -> wf_grid R C (last hist []) -> 1 <= T ->
+  exists grids,
+    evolve2d_plain (fun u n c t => (u, f n c t)) store r ty tt hist T = Ok (tt, hist ++ grids) /\
+    length grids = T - 1 /\ Forall (wf_grid R C) grids /\
+    forall t, 1 <= t < T ->
+      nth (t - 1) grids [] =
+        map (fun row => map (fun col =>
+               store (f {| nb_vals := torus_block (nth (t - 1) (last hist [] :: grids) []) row col r;
+                           nb_mask := mask_of ty r |} (row, col) t))
+             (seq 0 C)) (seq 0 R).
+Proof.
+  intros f store R C r ty hist T HR HC Hr Hwf HT.
+  destruct T as [|k]; [lia|].
+  destruct (iter_steps_pure f store R C r ty HR HC Hr k tt (last hist []) 1 Hwf) as [grids [E1 [E2 [E3 E4]]]].
+  exists grids. unfold evolve2d_plain, evolve_fixed. unfold grid in *. rewrite E1.
+  split; [reflexivity|]. split; [lia|]. split; [exact E3|].
+  intros t Ht. apply (E4 t). lia.
+Qed.
